@@ -6,7 +6,7 @@ META = {
     "property_id": "C06",
     "technique": "Coq invariants over the foreign-master-list model (selection needs >= 2 stored Announces; stored Announces never own identity / >= 255 steps; expiry by ageing) with the constants regenerated from the source + executable oracle ok_C06 evaluated in Coq on implementation traces + trace correspondence",
     "category": "proof",
-    "text": "Whole histories: C06_walk_main - for every valid set-up and EVERY valid event list the walk conjunct of ok_C06 accepts the model's own trace: slave of a parent after a BMCA run only with >= 2 Announces of that parent within the foreign-master time window (in BMCA runs), passive by BMCA only with such a master or under the multiport rule, no call outside a BMCA run makes a port slave (ok_C06 implies it: C06_oracle_implies_walk). The steady-master liveness scan (steady_ok) is evaluated on traces only. Proved for every foreign master list (hence after every history): a BMCA run selects an Erbest only from a master with at least two stored Announces; registration, ageing and selection preserve the invariant that stored Announces are filed under their sender, never carry the own clock identity and never report stepsRemoved >= 255; after n silent BMCA runs with n*bmca_interval >= 4 announce intervals no Announce of a master is left. THRESHOLD = 2 and WINDOW = 4 are read from foreign_master.rs on every run (coq/Generated/Consts.v) and tied to the model by proof. History level (necessary condition for becoming/staying slave or passive in terms of received Announces within the window, measured in BMCA runs; steady single master never dropped across 65535->0) is the executable oracle ok_C06 evaluated in Coq on implementation traces.",
+    "text": "Whole histories: C06_main - for every valid set-up and EVERY valid event list the COMPLETE oracle ok_C06 accepts the model's own trace. Walk conjunct (C06_walk_main): slave of a parent after a BMCA run only with >= 2 Announces of that parent within the foreign-master time window (in BMCA runs), passive by BMCA only with such a master or under the multiport rule, no call outside a BMCA run makes a port slave (ok_C06 implies it: C06_oracle_implies_walk). Liveness half (C06_steady_main): on every steady history (one better master announcing before every BMCA run with consecutive sequence ids, also across 65535 -> 0) every BMCA run from the second Announce on leaves the port slave of that master. Proved for every foreign master list (hence after every history): a BMCA run selects an Erbest only from a master with at least two stored Announces; registration, ageing and selection preserve the invariant that stored Announces are filed under their sender, never carry the own clock identity and never report stepsRemoved >= 255; after n silent BMCA runs with n*bmca_interval >= 4 announce intervals no Announce of a master is left. THRESHOLD = 2 and WINDOW = 4 are read from foreign_master.rs on every run (coq/Generated/Consts.v) and tied to the model by proof. History level (necessary condition for becoming/staying slave or passive in terms of received Announces within the window, measured in BMCA runs; steady single master never dropped across 65535->0) is the executable oracle ok_C06 evaluated in Coq on implementation traces.",
     "design_ref": "DESIGN.md section 6 (C06)",
     "level_note": "Theorems about Port/Bmc.v (closed under the global context). 'Two Announce messages' is read as two receptions (a duplicated frame counts twice: the code accepts a repeated sequence id), see DESIGN. Not proved: that stored records correspond one-to-one to distinct receptions (ghost arrival indices), and the never-dropped half for more than one master; both are checked on traces only. Beyond 8 masters only the necessary condition is claimed.",
 }
